@@ -241,20 +241,36 @@ def structure_differs(a, b):
 
 
 # --------------------------------------------------------------------------- the monitor
+def _as_list(x):
+    """(list of dask collections, positions of them in x) for one collection or a tuple/list of outputs of one call
+    (outputs that are not dask collections, e.g. NumPy bin edges, are left out)."""
+    if hasattr(x, "__dask_graph__"):
+        return [x], None
+    if isinstance(x, (tuple, list)):
+        pos = [i for i, c in enumerate(x) if hasattr(c, "__dask_graph__")]
+        return [x[i] for i in pos], pos
+    return [], None
+
+
 def check(ctx, op, param, a, build_b, va=None, together=None, compute=None, compute_many=None, same=None,
           describe=None, salt=""):
     """Observe collection ``a`` of the running case next to one sibling.
 
     op, param    label parts (``<op>:<param>-not-in-name:...``); no random values in them
-    a            the lazily built collection of the case
-    build_b      the sibling, or a thunk building it (a thunk that raises / returns None: nothing is observed)
-    va           stand-alone value of ``a`` when the module computed it already (saves a computation)
+    a            the lazily built collection of the case, or the tuple of outputs of ONE call (np.unique style)
+    build_b      the sibling (same form as ``a``), or a thunk building it (a thunk that raises / returns None:
+                 nothing is observed)
+    va           stand-alone value of ``a`` when the module computed it already (for a tuple: the tuple of values,
+                 aligned with ``a``); saves a computation
     together     None -> seeded ~15 % of the cases (``want_together(ctx.case)``); True/False to force
-    compute      stand-alone evaluator (default ``coll.compute(scheduler="sync")``)
-    compute_many joint evaluator of a list of collections (default ``dask.compute(*colls, scheduler="sync")``)
+    compute      stand-alone evaluator of one collection (default ``coll.compute(scheduler="sync")``)
+    compute_many joint evaluator of a list of collections (default ``dask.compute(*colls, scheduler="sync")``); the
+                 outputs of one call are evaluated with it, too (that is how the call is computed stand-alone)
     same         equality of two computed values (default ``same_value``)
     describe     small jsonable description of the sibling parameter for the witness
 
+    Shared keys are looked for between every output of ``a`` and every output of ``b``; an output of the sibling that
+    legitimately IS an output of the case (equal values, e.g. the bin edges of two histograms) is not reported.
     Returns True when a sibling was observed.
     """
     import numpy as np
@@ -262,6 +278,10 @@ def check(ctx, op, param, a, build_b, va=None, together=None, compute=None, comp
     compute = compute or _default_compute
     compute_many = compute_many or _default_compute_many
     same = same or same_value
+
+    def alone(colls):
+        return [compute(colls[0])] if len(colls) == 1 else list(compute_many(colls))
+
     with warnings.catch_warnings():
         warnings.simplefilter("ignore")
         with np.errstate(all="ignore"):
@@ -269,61 +289,76 @@ def check(ctx, op, param, a, build_b, va=None, together=None, compute=None, comp
                 b = build_b() if callable(build_b) and not hasattr(build_b, "__dask_graph__") else build_b
             except Exception:  # noqa: BLE001
                 b = None
-            if b is None or not hasattr(b, "__dask_graph__") or not hasattr(a, "__dask_graph__"):
+            A, posa = _as_list(a)
+            B, _ = _as_list(b)
+            if not A or not B:
                 ctx.count("siblings_not_built")
                 return False
             ctx.count("siblings_built")
             ctx.op("sibling:%s:%s" % (op, param))
-            shared = output_keys(a) & output_keys(b)
+            ka, kb = [output_keys(c) for c in A], [output_keys(c) for c in B]
+            pairs = [(i, j, ka[i] & kb[j]) for i in range(len(A)) for j in range(len(B)) if ka[i] & kb[j]]
             if together is None:
                 together = want_together(ctx.case, salt=salt)
-            if not shared and not together:
+            if not pairs and not together:
                 return True
             try:
                 if va is None:
-                    va = compute(a)
-                vb = compute(b)
-            except NotImplementedError:
-                ctx.count("siblings_standalone_failed")
-                return True
-            except Exception:  # noqa: BLE001
-                ctx.count("siblings_standalone_failed")
-                return True
-            # different values, or equal assembled values cut into different blocks (the keys then hold different values)
-            only_structure = False
-            differ = not same(va, vb)
-            if not differ and structure_differs(a, b):
-                differ = only_structure = True
-            if differ:
-                ctx.count("siblings_with_different_values")
-            if shared:
-                if differ:
-                    ex = sorted(map(repr, shared))[0]
-                    ctx.violation("%s:%s-not-in-name:siblings-share-keys" % (op, param),
-                                  "two collections that differ only in %s have %d output key(s) in common (e.g. %s; names %r / %r) "
-                                  "but compute different values: %s vs %s"
-                                  % (param, len(shared), ex, _name(a), _name(b),
-                                     _brief(va) if not only_structure else "chunks %r" % (getattr(a, "chunks", None),),
-                                     _brief(vb) if not only_structure else "chunks %r" % (getattr(b, "chunks", None),)),
-                                  sibling=describe, shared_keys=len(shared))
+                    VA = alone(A)
                 else:
+                    VA = [va] if posa is None else [va[i] for i in posa]
+                VB = alone(B)
+            except Exception:  # noqa: BLE001  (NotImplementedError included: the sibling's own failure is not this facet's business)
+                ctx.count("siblings_standalone_failed")
+                return True
+
+            def differ(i, j):
+                """different values, or equal assembled values cut into different blocks (the keys then hold different
+                values); second item: only the structure differs"""
+                if not same(VA[i], VB[j]):
+                    return True, False
+                if structure_differs(A[i], B[j]):
+                    return True, True
+                return False, False
+
+            if len(A) != len(B) or any(differ(i, i)[0] for i in range(len(A))):
+                ctx.count("siblings_with_different_values")
+            nshared = sum(len(k) for _, _, k in pairs)
+            reported = False
+            for i, j, shared in pairs:
+                d, only_structure = differ(i, j)
+                if not d:
                     ctx.count("siblings_sharing_keys_equal_values")
+                    continue
+                if reported:
+                    continue
+                reported = True
+                ex = sorted(map(repr, shared))[0]
+                ctx.violation("%s:%s-not-in-name:siblings-share-keys" % (op, param),
+                              "two collections that differ only in %s have %d output key(s) in common (e.g. %s; names %r / %r) "
+                              "but compute different values: %s vs %s"
+                              % (param, len(shared), ex, _name(A[i]), _name(B[j]),
+                                 _brief(VA[i]) if not only_structure else "chunks %r" % (getattr(A[i], "chunks", None),),
+                                 _brief(VB[j]) if not only_structure else "chunks %r" % (getattr(B[j], "chunks", None),)),
+                              sibling=describe, shared_keys=len(shared))
             if not together:
                 return True
             ctx.count("siblings_computed_together")
+            names = [[_name(c) for c in A], [_name(c) for c in B]]
             try:
-                ja, jb = compute_many([a, b])
+                J = list(compute_many(A + B))
             except Exception as e:  # noqa: BLE001
                 ctx.violation("%s:%s:differs-when-computed-with-sibling" % (op, param),
                               "each of two collections that differ only in %s computes alone, computing both in one graph raises "
                               "%s: %s" % (param, type(e).__name__, " ".join(str(e).split())[:300]),
-                              sibling=describe, names=[_name(a), _name(b)])
+                              sibling=describe, names=names)
                 return True
-            bad_a, bad_b = not same(ja, va), not same(jb, vb)
-            if bad_a or bad_b:
-                which, alone, joint = ("the collection", va, ja) if bad_a else ("its sibling", vb, jb)
-                ctx.violation("%s:%s:differs-when-computed-with-sibling" % (op, param),
-                              "computed in one graph with a collection that differs only in %s, %s gives %s; alone it gives %s "
-                              "(names %r / %r)" % (param, which, _brief(joint), _brief(alone), _name(a), _name(b)),
-                              sibling=describe, shared_output_keys=len(shared))
+            for k, (joint, alone_v) in enumerate(zip(J, VA + VB)):
+                if not same(joint, alone_v):
+                    which = "the collection" if k < len(A) else "its sibling"
+                    ctx.violation("%s:%s:differs-when-computed-with-sibling" % (op, param),
+                                  "computed in one graph with a collection that differs only in %s, %s gives %s; alone it gives %s "
+                                  "(names %r / %r)" % (param, which, _brief(joint), _brief(alone_v), names[0], names[1]),
+                                  sibling=describe, shared_output_keys=nshared)
+                    break
             return True
